@@ -173,3 +173,88 @@ def conv_guard_factory(repo, log=None):
                 return True
         return False
     return guard
+
+
+def format_problems(call):
+    """Problems of a `_format(<const>, args...)` / '<const>'.format(...) call
+    that make str.format itself raise: mixing automatic and manual field
+    numbering, positional index beyond the arguments, unknown keyword."""
+    import string
+    fmt = None
+    args = []
+    kw = set()
+    star = False
+    d = dotted(call.func)
+    if d in ('_format',) and call.args:
+        fmt = const_str(call.args[0])
+        args = call.args[1:]
+    elif isinstance(call.func, ast.Attribute) and call.func.attr == 'format':
+        fmt = const_str(call.func.value)
+        args = call.args
+    if fmt is None:
+        return []
+    for a in args:
+        if isinstance(a, ast.Starred):
+            star = True
+    for k in call.keywords:
+        if k.arg is None:
+            star = True
+        else:
+            kw.add(k.arg)
+    out = []
+    auto = manual = False
+    try:
+        fields = list(string.Formatter().parse(fmt))
+    except ValueError as e:
+        return ['malformed format string: %s' % e]
+    for lit, name, spec, conv in fields:
+        if name is None:
+            continue
+        head = name.split('.')[0].split('[')[0]
+        if head == '':
+            auto = True
+        elif head.isdigit():
+            manual = True
+            if not star and int(head) >= len(args):
+                out.append('field {%s} but only %d positional argument(s)'
+                           % (head, len(args)))
+        else:
+            if not star and head not in kw:
+                out.append('field {%s} has no keyword argument' % head)
+    if auto and manual:
+        out.append('mixes automatic {} and manual {N} field numbering '
+                   '(str.format raises ValueError)')
+    if auto and not manual and not star:
+        n = sum(1 for _, name, _, _ in fields if name == '' or
+                (name is not None and name.split('.')[0].split('[')[0] == ''))
+        if n > len(args):
+            out.append('%d automatic fields but %d argument(s)'
+                       % (n, len(args)))
+    return out
+
+
+def run_format_rule(repo, rep, rr, func_filter):
+    """Every _format()/str.format() call with a constant format string in
+    the selected functions can actually be evaluated (else the intended
+    error is replaced by ValueError/KeyError/IndexError)."""
+    for f in repo.all_funcs():
+        if not func_filter(f):
+            continue
+        rr.functions.add(f.fq)
+        for c in walk_no_nested(f.node):
+            if not isinstance(c, ast.Call):
+                continue
+            fmtcall = dotted(c.func) == '_format' or (
+                isinstance(c.func, ast.Attribute) and
+                c.func.attr == 'format' and
+                const_str(c.func.value) is not None)
+            if not fmtcall:
+                continue
+            ps = format_problems(c)
+            rr.sites += 1
+            arg = c.args[0] if c.args else c
+            rr.ob(not ps, '%s|%s' % (f.qualname, norm(arg, 60)))
+            for pr in ps:
+                rep.finding(rr, f.qualname, norm(arg, 80), 'format', f.file,
+                            c.lineno, 'building this message raises instead '
+                            'of the intended error: ' + pr)
